@@ -51,6 +51,25 @@ def ops : List (String × Op) := [
       let ans ← pRest tok
       -- domain of the never-hides claim: a valid query start, and the interval contained in / overlapping the range
       if qs - off ≥ 0 ∧ fs ≤ fe ∧ qs ≤ fe ∧ fs ≤ qe then pure (verdict (ans == ["ok", "true"]))
-      else pure (verdict (ans == ["ok", "true"] || ans == ["ok", "false"])))
+      else pure (verdict (ans == ["ok", "true"] || ans == ["ok", "false"]))),
+  ("objbin", do
+      let _kind ← tok; let s ← pInt; let e ← pInt; pArrow
+      match (← pRest tok) with
+      | ["ok", "one", n] => pure (verdict (n.toInt? == some (expectBin s e 0)))
+      | _ => pure "fail"),
+  -- position query, brute force: a child is returned iff its span lies within (strict) / overlaps (relaxed) the range
+  ("bquery", do
+      let cw ← pBool; let qs ← pInt; let qe ← pInt
+      let kids ← pList (do let _k ← tok; pList pIntPair)
+      pArrow
+      let ans ← pRest tok
+      let want := (List.range kids.length).filter (fun i =>
+        match kids[i]? with
+        | some (m :: ms) =>
+          let cs := ms.foldl (fun a x => min a x.1) m.1
+          let ce := ms.foldl (fun a x => max a x.2) m.2
+          if cw then decide (qs ≤ cs ∧ ce ≤ qe ∧ cs < ce) else decide (cs < qe ∧ qs < ce ∧ cs < ce)
+        | _ => false)
+      pure (verdict (ans == "ok" :: want.map toString)))
 ]
 end BioCantor.Driver.SpecBins
